@@ -132,6 +132,45 @@ def r04_4(ctx):
                'cleaned[...] is reachable only through `popen is None` or `exitcode is not None`')
 
 
+def r04_9(ctx):
+    ctx.rule('R04.9', 'the owner / acceptance records of a map job are kept per item: every store into them is indexed '
+                      'by an item position (a loop variable over the part\'s item range), never by the part index',
+             floor=2)
+    m = ctx.model
+    ci = m.cls('pool:MapResult')
+    per_item = set()
+    init = ci.methods['__init__']
+    for (dn, t, v) in q.assigns(init, lambda t: t.startswith('self._')):
+        # [x] * length  -> a per-item list
+        if isinstance(v, ast.BinOp) and isinstance(v.op, ast.Mult) and isinstance(v.left, ast.List) and \
+                'length' in ast.unparse(v.right):
+            per_item.add(ast.unparse(t))
+    per_item.discard('self._value')       # written by slices of chunksize items: R02.1
+    q.need(per_item, 'MapResult.__init__: per-item lists not found')
+    n_st = 0
+    for name, fi in sorted(ci.methods.items()):
+        if len(fi.positional_params()) < 2:
+            continue
+        part = fi.positional_params()[1]
+        for (dn, t, v) in q.assigns(fi, lambda t: any(t.startswith(a + '[') for a in per_item)):
+            if not isinstance(t, ast.Subscript):
+                continue
+            n_st += 1
+            idx = t.slice
+            names = {x.id for x in ast.walk(idx) if isinstance(x, ast.Name)}
+            loopvars = {ast.unparse(lp.stmt.target): lp for lp in fi.cfg.where(lambda x: x.kind == 'for')
+                        if q.inside(fi, dn, lp.stmt.body)}
+            by_item = bool(names & set(loopvars)) and all(
+                'range(' in ast.unparse(loopvars[nm].stmt.iter) for nm in names & set(loopvars))
+            ok = by_item and part not in names or (isinstance(idx, ast.Slice) and 'chunksize' in ast.unparse(idx))
+            ctx.ob('R04.9', 'MapResult.%s:%s-indexed-by-item' % (name, ast.unparse(t.value).split('.')[-1]), ok, fi, dn,
+                   '%s[%s] inside a loop over the part\'s item range' % (ast.unparse(t.value), ast.unparse(idx)) if ok else
+                   '%s is a per-item list but is written at `%s`, the part index: with chunksize > 1 this is the slot of '
+                   'an item of another part -- its owner record is wiped, so the death of that worker is never '
+                   'attributed to the job' % (ast.unparse(t.value), ast.unparse(idx)))
+    q.need(n_st >= 2, 'MapResult: no store into the per-item owner lists found')
+
+
 def r04_5(ctx):
     ctx.rule('R04.5', 'a job is declared lost only from the reaper, after now - lost_time exceeded its '
                       'lost-worker timeout, with the exit status recorded in the marker', floor=4)
@@ -149,6 +188,17 @@ def r04_5(ctx):
         ctx.ob('R04.5', 'caller:%s' % fi.qual.split(':')[1], ok, fi, c, 'only the reaper declares a job lost')
         if not ok:
             continue
+        # the scan for expired markers runs on every call of the reaper, before any way out of it -- in particular
+        # before the "all workers joined" exit taken at shutdown, after which nobody would ever report the job
+        scan = [lp for lp in je.cfg.where(lambda x: x.kind == 'for') if q.inside(je, n, lp.stmt.body)]
+        outs = [x for x in je.cfg.where(lambda x: x.kind == 'stmt' and isinstance(x.ast, (ast.Raise, ast.Return)))
+                if not any(q.inside(je, x, lp.stmt.body) for lp in scan)]
+        early = [x for x in outs if not (scan and je.cfg.dominated_by(x, scan)[0])]
+        ctx.ob('R04.5', 'reaper:expired-markers-scanned-before-any-way-out', bool(scan) and not early, je,
+               early[0] if early else (scan[0] if scan else None),
+               'the lost-job scan dominates every return / raise of the reaper' if not early else
+               '`%s` leaves the reaper before the lost-job scan: at shutdown, once the last worker is reaped, an '
+               'expired lost marker is never turned into WorkerLostError' % early[0].text())
         jobx = ast.unparse(c.args[0])
         # marker unpack
         unp = None
@@ -205,6 +255,28 @@ def r04_6(ctx):
         all('-' + P in ast.unparse(n.ast) for n in sig)
     ctx.ob('R04.6', 'human_status:negative-is-signal', ok, hs, sig[0] if sig else None,
            'negative statuses are rendered as signal -status')
+    # naming a status must not fail for a status that has no name (real-time signals): the reaper calls it, and an
+    # exception there takes the supervisor -- and with it the host process -- down.  The name lookup is protected by
+    # a handler for what *that* lookup raises.
+    RAISES = {'subscript': 'KeyError', 'signal.Signals': 'ValueError', 'Signals': 'ValueError',
+              'signal.strsignal': 'ValueError', 'getattr': 'AttributeError'}
+    n_l = 0
+    for x in walk_own(hs.node):
+        kind = None
+        if isinstance(x, ast.Subscript) and isinstance(x.ctx, ast.Load) and not isinstance(x.slice, ast.Slice):
+            kind = 'subscript'
+        elif isinstance(x, ast.Call) and hs.callee(x) in RAISES:
+            kind = hs.callee(x)
+        if kind is None:
+            continue
+        n_l += 1
+        need = RAISES[kind]
+        h = q.protected_by(hs, x, [need])
+        ctx.ob('R04.6', 'human_status:name-lookup-cannot-raise#%d' % n_l, h is not None, hs, x,
+               '`%s` is inside a handler for %s' % (ast.unparse(x), need) if h is not None else
+               '`%s` raises %s for a status without a name and no handler around it catches that: the supervisor '
+               'thread dies in the reaper (PoolThread.run -> os._exit)' % (ast.unparse(x), need))
+    q.need(n_l >= 1, 'human_status: no name lookup found')
 
 
 def r04_7(ctx):
@@ -242,6 +314,7 @@ def run(ctx):
     r04_5(ctx)
     r04_6(ctx)
     r04_7(ctx)
+    r04_9(ctx)
     # the loss must still be reported while the pool shuts down: the drain loop of the result handler
     from .c07 import r07_3
     r07_3(ctx)
@@ -260,6 +333,12 @@ def run(ctx):
 
 _P = 'billiard/pool.py'
 MUTANTS = [
+    ('owner-record-cleared-by-part-index', _P, "                self._value[i * self._chunksize:(i + 1) * self._chunksize] = result\n",
+     "                self._value[i * self._chunksize:(i + 1) * self._chunksize] = result\n                self._worker_pid[i] = None\n", 'R04.9'),
+    ('status-name-lookup-raises-something-else', 'billiard/common.py', "            return 'signal {0} ({1})'.format(-status, SIGMAP[-status])\n",
+     "            return 'signal {0} ({1})'.format(-status, signal.Signals(-status).name)\n", 'R04.6'),
+    ('shutdown-exit-before-the-lost-job-scan', _P, "        now = None\n        # The worker may have published a result before being terminated,\n",
+     "        if shutdown and not len(self._pool):\n            raise WorkersJoined()\n        now = None\n        # The worker may have published a result before being terminated,\n", 'R04.5'),
     ('lost-marker-overwritten-on-every-pass', _P, "        if job._worker_lost is None:\n            # keep the first detection: the grace period starts there and\n            # the status is the one of the worker that ran the job.\n            job._worker_lost = (monotonic(), exitcode)\n",
      "        job._worker_lost = (monotonic(), exitcode)\n", 'R04.4'),
     ('lost-only-for-nonzero-status', _P, "                    if not job.ready():\n                        exitcode = exitcodes.get(acked_by_gone) or 0\n",
